@@ -240,7 +240,8 @@ def _get_unused_imports(ast_tree: ast.Module) -> Collection[str]:
             full_name = re.sub(r"\.[^\.]*$", "", full_name)
             names.add(full_name)
 
-    return imports - names
+    # `import a.b` binds the name a, so it is in use whenever a is
+    return {name for name in imports - names if name.split(".")[0] not in names}
 
 
 def _get_unused_imports_split(
